@@ -30,9 +30,16 @@
 (*                     has been written (FALSE: only until the handler     *)
 (*                     returns - Shutdown can close the connection under   *)
 (*                     the pending reply and still report success)         *)
+(* Beyond the listed properties (check E05):                               *)
+(*   ListenerMayFail   the environment may make the listener fail while    *)
+(*                     the server is running (Accept returns an error that *)
+(*                     nobody asked for)                                   *)
+(*   FailureDistinct   the serve call then returns THAT error (FALSE: it   *)
+(*                     reports "server closed" as if Shutdown had been     *)
+(*                     called)                                             *)
 (***************************************************************************)
 EXTENDS Integers, Sequences, FiniteSets, TLC, Json
-CONSTANTS K, CloseGuardOwn, CancelWakesAccept, ShutdownClaims, TrackChecksDown, UnmarkAfterWrite, StartupSafe, Emit
+CONSTANTS K, CloseGuardOwn, CancelWakesAccept, ShutdownClaims, TrackChecksDown, UnmarkAfterWrite, StartupSafe, ListenerMayFail, FailureDistinct, Emit
 
 Conns == 1..K
 
@@ -124,10 +131,17 @@ AcceptConn ==
     /\ H("acc", 0)
     /\ UnchangedAccRest /\ UNCHANGED <<lis, tracked, count, everTracked, mu, serveRet, acceptArg, liveAtCb>>
 
-\* l.Accept() fails because the listener was closed                  hook serve.ret
+\* the environment: the listener fails although neither Shutdown nor cancellation asked for it (E05)
+ListenerFail ==
+    /\ ListenerMayFail /\ lis = "open" /\ acc \notin {"starting", "returned"} /\ ~isShutdown /\ ~ctxDone
+    /\ lis' = "failed"
+    /\ H("lfail", 0)
+    /\ UnchangedAccRest /\ UNCHANGED <<cli, queue, acc, cur, sock, tracked, count, everTracked, mu, serveRet, acceptArg, liveAtCb>>
+
+\* l.Accept() fails because the listener was closed (or failed)      hook serve.ret
 AcceptFail ==
-    /\ acc = "accept" /\ lis = "closed"
-    /\ acc' = "returned" /\ serveRet' = IF isShutdown \/ ctxDone THEN "closed" ELSE "other"
+    /\ acc = "accept" /\ lis \in {"closed", "failed"}
+    /\ acc' = "returned" /\ serveRet' = IF isShutdown \/ ctxDone \/ ~FailureDistinct THEN "closed" ELSE "other"
     /\ H("acc", 0)
     /\ UnchangedAccRest /\ UNCHANGED <<cli, lis, queue, cur, sock, tracked, count, everTracked, mu, acceptArg, liveAtCb>>
 
@@ -261,7 +275,7 @@ UnchangedSdRest == UNCHANGED <<onAccept, onClose, rejects, cli, sent, delivered,
 
 \* s.mu.Lock(); isShutdown.Store(true); listener.Close()             hooks sd.start, sd.lisclosed
 SdStart ==
-    /\ sdPc = "idle" /\ ~ctxDone /\ mu = 0 /\ acc # "returned"
+    /\ sdPc = "idle" /\ ~ctxDone /\ mu = 0 /\ (acc # "returned" \/ lis = "failed")   \* also after the serve call gave up on a failed listener
     /\ mu' = -1 /\ isShutdown' = TRUE
     \* before the serve call has installed the listener there is nothing Shutdown could close
     /\ IF acc = "starting" THEN (lis' = lis /\ crash' = (crash \/ ~StartupSafe)) ELSE (lis' = "closed" /\ crash' = crash)
@@ -316,7 +330,7 @@ Quiescent ==
 
 Next ==
     \/ \E c \in Conns : Dial(c) \/ Send(c) \/ Hangup(c)
-    \/ Cancel \/ ServeStart \/ AcceptConn \/ AcceptFail \/ CancelWake \/ AcceptCb \/ CtxCheck \/ TrackAdd
+    \/ Cancel \/ ServeStart \/ AcceptConn \/ ListenerFail \/ AcceptFail \/ CancelWake \/ AcceptCb \/ CtxCheck \/ TrackAdd
     \/ \E c \in Conns : ConnLeave(c) \/ ConnRead(c) \/ ConnMark(c) \/ ConnHandle(c) \/ ConnWrite(c) \/ ConnUnmark(c) \/ ConnClose(c) \/ ConnUntrack(c) \/ ConnCloseCb(c)
     \/ SdStart \/ (\E c \in Conns : SdCheck(c)) \/ SdClose \/ SdPassEnd \/ SdTimeout
     \/ (Quiescent /\ UNCHANGED vars)
@@ -342,6 +356,11 @@ AfterShutdown ==
         /\ sdOpenAtRet = {}          \* every connection Shutdown knew about is closed
         /\ sdStartedAtRet = {}       \* every request whose handler had started has its reply
 NoStragglerAfterShutdown == (sdRet = "nil" /\ acc = "returned") => \A c \in Conns : sock[c] # "open"
+\* E05: "server closed" is the answer to Shutdown or cancellation only; a failed listener ends the serve call all the same
+ClosedOnlyWhenAsked == (serveRet = "closed") => (isShutdown \/ ctxDone)
+FailureThenServeReturns == (lis = "failed") ~> (acc = "returned")
+\* (after a listener failure the serve call has already returned the listener's error when Shutdown comes)
+ShutdownThenServeReturned == (sdRet = "nil") ~> (acc = "returned")
 ShutdownThenServeReturns == (sdRet = "nil") ~> (serveRet = "closed")
 CancelThenServeReturns == ctxDone ~> (acc = "returned")
 
